@@ -57,6 +57,7 @@ CASES: dict = {}      # op line -> Case (so that impl/oracle need not parse agai
 SPEC: dict = {}       # op line -> spec answer in canonical form (`ok …` / `fail`)
 IMPL_ERR: dict = {}   # op line -> errno name raised by the implementation (evidence only)
 STATS = {"same_code": 0, "diff_code": 0, "pairs": {}}
+_N = [0]
 
 
 # =================================================================== implementation side
@@ -80,6 +81,18 @@ def _impl_case(c: Case) -> tuple[str, str | None]:
             vm.is_solution_script = False
             out = vm.eval_script()
             return "ok " + S.fmt_stack(out), None
+        _N[0] += 1
+        if _N[0] % 8 == 0:
+            # the other two observation points must tell the same story as check_solution
+            ok1 = info.tx.is_solution_ok(info.idx, flags=c.flags)
+            bad = info.tx.bad_solution_count(flags=c.flags) if len(info.tx.txs_in) == 1 else (0 if ok1 else 1)
+            try:
+                info.tx.check_solution(info.idx, flags=c.flags)
+                ok0 = True
+            except ScriptError:
+                ok0 = False
+            if ok1 != ok0 or (bad == 0) != ok0:
+                return "err is_solution_ok=%s/bad_solution_count=%d/check_solution=%s" % (ok1, bad, ok0), None
         info.tx.check_solution(info.idx, flags=c.flags)
         return "ok", None
     except ScriptError as e:
